@@ -9,6 +9,7 @@ shape the side conditions of PART L are evaluated on that list.
 Real process (worker subprocesses): getattr_static snapshot of the jax*/flax*/equinox* namespace,
 x64 flag, user model leaves and behavioural probes across a random history of succeeding and
 failing conversions; an exception inside the enter loop of apply_monkey_patches."""
+import functools
 import json
 import os
 import subprocess
@@ -308,6 +309,144 @@ def _same_result(a, b):
                             for x, y in zip(la, lb))
 
 
+def object_graph(fn, max_depth=5, max_objects=400):
+    """the converted callable's reachable USER objects: closure cells, __self__, __wrapped__, defaults,
+    the globals it names; then instance attributes / container items, bounded.  Per object: type, the
+    keys of vars(), identity of every non-array value, equality of array values, the pytree structure,
+    nnx.graphdef for nnx modules."""
+    import types
+    import dataclasses
+    import numpy as np
+    import jax
+    try:
+        from flax import nnx
+    except Exception:  # noqa: BLE001
+        nnx = None
+    seen, order = {}, []
+
+    def is_array(v):
+        return isinstance(v, (np.ndarray, np.generic, jax.Array))
+
+    def interesting(v):
+        if v is None or isinstance(v, (bool, int, float, complex, str, bytes, type, types.ModuleType, types.BuiltinFunctionType)):
+            return False
+        if is_array(v):
+            return False
+        return True
+
+    def add(v, path, depth):
+        if not interesting(v) or id(v) in seen or len(order) >= max_objects:
+            return
+        seen[id(v)] = path
+        order.append((path, v, depth))
+    roots = [("fn", fn)]
+    q = list(roots)
+    add(fn, "fn", 0)
+    i = 0
+    while i < len(order):
+        path, v, depth = order[i]
+        i += 1
+        if depth >= max_depth:
+            continue
+        kids = []
+        if isinstance(v, (types.FunctionType, types.MethodType)):
+            f = v.__func__ if isinstance(v, types.MethodType) else v
+            if isinstance(v, types.MethodType):
+                kids.append((path + ".__self__", v.__self__))
+            for j, c in enumerate(f.__closure__ or ()):
+                try:
+                    kids.append((f"{path}.<closure:{f.__code__.co_freevars[j]}>", c.cell_contents))
+                except ValueError:
+                    pass
+            for n in f.__code__.co_names:
+                if n in f.__globals__ and not isinstance(f.__globals__[n], (types.ModuleType, type, types.FunctionType)):
+                    kids.append((f"{path}.<global:{n}>", f.__globals__[n]))
+            for j, dv in enumerate(f.__defaults__ or ()):
+                kids.append((f"{path}.<default:{j}>", dv))
+            if hasattr(f, "__wrapped__"):
+                kids.append((path + ".__wrapped__", f.__wrapped__))
+        elif isinstance(v, functools.partial):
+            kids += [(path + ".func", v.func)] + [(f"{path}.args[{j}]", a) for j, a in enumerate(v.args)] + \
+                    [(f"{path}.kw[{k}]", a) for k, a in (v.keywords or {}).items()]
+        elif isinstance(v, (list, tuple)):
+            kids += [(f"{path}[{j}]", x) for j, x in enumerate(v[:50])]
+        elif isinstance(v, dict):
+            kids += [(f"{path}[{k!r}]", x) for k, x in list(v.items())[:50]]
+        else:
+            d = getattr(v, "__dict__", None)
+            if isinstance(d, dict):
+                kids += [(f"{path}.{k}", x) for k, x in list(d.items())[:80]]
+            for sl in getattr(type(v), "__slots__", ()) if isinstance(getattr(type(v), "__slots__", ()), (tuple, list)) else ():
+                if hasattr(v, sl):
+                    kids.append((f"{path}.{sl}", getattr(v, sl)))
+        for kp, kv in kids:
+            add(kv, kp, depth + 1)
+    rec = {}
+    keep = []
+    for path, v, _d in order:
+        if isinstance(v, (types.FunctionType, types.MethodType)):
+            continue
+        keep.append(v)
+        e = {"type": f"{type(v).__module__}.{type(v).__qualname__}"}
+        d = getattr(v, "__dict__", None)
+        if isinstance(d, dict):
+            e["vars"] = sorted(map(str, d))
+            e["ids"] = {str(k): (("arr", np.asarray(x).tobytes()[:64], np.asarray(x).shape) if is_array(x) else ("id", id(x)))
+                        for k, x in d.items()}
+        elif isinstance(v, (list, tuple)):
+            e["len"] = len(v)
+        elif isinstance(v, dict):
+            e["keys"] = sorted(map(repr, v))
+        if not isinstance(v, (list, tuple, dict)):
+            try:
+                leaves, td = jax.tree_util.tree_flatten(v)
+                e["treedef"] = str(td)
+                e["n_leaves"] = len(leaves)
+            except Exception:  # noqa: BLE001
+                pass
+            if nnx is not None and isinstance(v, nnx.Module):
+                try:
+                    e["graphdef"] = nnx.graphdef(v)
+                except Exception:  # noqa: BLE001
+                    pass
+            if dataclasses.is_dataclass(v):
+                e["fields"] = sorted(f.name for f in dataclasses.fields(v))
+        rec[path] = e
+    return rec, keep
+
+
+def object_graph_diff(a, b):
+    out = []
+    for path in a:
+        if path not in b:
+            out.append(f"{path}: no longer reachable")
+            continue
+        x, y = a[path], b[path]
+        for k in sorted(set(x) | set(y)):
+            if k == "ids":
+                xi, yi = x.get("ids", {}), y.get("ids", {})
+                ch = [n for n in xi if n in yi and xi[n] != yi[n]]
+                if ch:
+                    out.append(f"{path}: attribute value(s) replaced: {ch[:4]}")
+            elif k == "vars":
+                if x.get(k) != y.get(k):
+                    out.append(f"{path}: attributes added {sorted(set(y.get(k, [])) - set(x.get(k, [])))} "
+                               f"removed {sorted(set(x.get(k, [])) - set(y.get(k, [])))}")
+            elif k == "graphdef":
+                try:
+                    same = x.get(k) == y.get(k)
+                except Exception:  # noqa: BLE001
+                    same = True
+                if not same:
+                    out.append(f"{path}: nnx.graphdef changed")
+            elif x.get(k) != y.get(k):
+                out.append(f"{path}: {k} changed")
+    for path in b:
+        if path not in a:
+            out.append(f"{path}: newly reachable")
+    return out
+
+
 def worker_history(seed, tier, out_path):
     import random
     import numpy as np
@@ -349,7 +488,7 @@ def worker_history(seed, tier, out_path):
     onnx_function(user_inner)
 
     def user_outer(x):
-        return user_inner(x) * jnp.sin(x)
+        return G["user_inner"](x) * jnp.sin(x)       # through the module attribute, as user code does
     user_outer.__module__ = "__main__"
     G["user_outer"] = user_outer
     onnx_function(user_outer)
@@ -383,6 +522,47 @@ def worker_history(seed, tier, out_path):
     G["UserBlock"] = UserBlock
     onnx_function(UserBlock)
 
+    # @onnx_function(unique=True) classes WITH parameters (nnx and equinox)
+    class UBlock(nnx.Module):
+        def __init__(self, dim, rngs):
+            self.linear = nnx.Linear(dim, dim, rngs=rngs)
+
+        def __call__(self, x):
+            return jnp.tanh(self.linear(x))
+    UBlock.__module__ = "__main__"
+    UBlock.__qualname__ = "UBlock"
+    G["UBlock"] = UBlock
+    onnx_function(unique=True)(UBlock)
+
+    class UModel(nnx.Module):
+        def __init__(self):
+            self.a = UBlock(4, nnx.Rngs(0))
+            self.b = UBlock(4, nnx.Rngs(0))
+
+        def __call__(self, x):
+            return self.b(self.a(x))
+
+    class EqxU(eqx.Module):
+        lin: eqx.nn.Linear
+
+        def __call__(self, x):
+            return jnp.tanh(self.lin(x))
+    EqxU.__module__ = "__main__"
+    EqxU.__qualname__ = "EqxU"
+    G["EqxU"] = EqxU
+    onnx_function(unique=True)(EqxU)
+    BASE_KIND = [KeyboardInterrupt]
+
+    def user_body_fails_base(x):
+        if ps._IN_FUNCTION_BUILD.get():
+            raise BASE_KIND[0]("c13: BaseException while the function body is re-traced during lowering")
+        return jnp.sin(x) + 3.0
+    user_body_fails_base.__module__ = "__main__"
+    G["user_body_fails_base"] = user_body_fails_base
+    onnx_function(user_body_fails_base)
+
+    umodel = UModel()
+    eqxu = EqxU(eqx.nn.Linear(4, 4, key=jax.random.PRNGKey(7)))
     linear = nnx.Linear(4, 3, rngs=nnx.Rngs(0))
     block = UserBlock(nnx.Rngs(1))
     dense = nn.Dense(3)
@@ -390,7 +570,7 @@ def worker_history(seed, tier, out_path):
     mha = nn.MultiHeadAttention(num_heads=2, qkv_features=4)
     mha_params = mha.init(jax.random.PRNGKey(1), jnp.ones((1, 3, 4), jnp.float32))
     eqx_lin = eqx.nn.Linear(4, 3, key=jax.random.PRNGKey(2))
-    models = {"nnx.Linear": linear, "UserBlock": block, "linen.Dense.params": dense_params,
+    models = {"UModel(unique)": umodel, "EqxU(unique)": eqxu, "nnx.Linear": linear, "UserBlock": block, "linen.Dense.params": dense_params,
               "linen.MHA.params": mha_params, "eqx.Linear": eqx_lin}
 
     # ---------------- real spec list, universe, baseline
@@ -427,7 +607,7 @@ def worker_history(seed, tier, out_path):
         "linen.MHA.jit": (jax.jit(lambda x: mha.apply(mha_params, x)), jnp.ones((1, 3, 4), jnp.float32)),
         "eqx.Linear": (lambda x: eqx_lin(x), x4[0]),
         "jit(nnx.Linear)": (jax.jit(lambda x: linear(x)), x4),
-        "user_outer": (lambda x: user_outer(x), x3),
+        "user_outer": (lambda x: G["user_outer"](x), x3),
     }
     probe0 = {k: _call(f, a) for k, (f, a) in eager_probes.items()}
     cold_probe_checked = [False]
@@ -467,11 +647,61 @@ def worker_history(seed, tier, out_path):
         if kind == "ok_eqx":
             f = lambda x: eqx_lin(x)
             return ("ok_eqx", True, lambda: to_onnx(f, [(4,)], enable_double_precision=dbl), (f, x4[0]), dbl)
+        if kind == "ok_unique_nnx":
+            f = (lambda x: umodel(x)) if rng.random() < 0.5 else umodel
+            return ("ok_unique_nnx", True, lambda: to_onnx(f, [(1, 4)], enable_double_precision=dbl), (f, x4[:1]), dbl)
+        if kind == "ok_unique_eqx":
+            f = (lambda x: eqxu(x)) if rng.random() < 0.5 else eqxu
+            return ("ok_unique_eqx", True, lambda: to_onnx(f, [(4,)], enable_double_precision=dbl), (f, x4[0]), dbl)
+        if kind in ("fail_trace_base", "fail_lowering_base", "fail_body_base", "fail_enter_base"):
+            bk = rng.choice([KeyboardInterrupt, SystemExit, _BaseErr, GeneratorExit])
+            if kind == "fail_trace_base":
+                def f(x):
+                    y = jnp.sin(x) + nnx.relu(x)
+                    if isinstance(y, jax.core.Tracer):
+                        raise bk("c13: BaseException while being traced")
+                    return y
+                return (f"fail_trace_base:{bk.__name__}", False, lambda: to_onnx(f, [(3,)], enable_double_precision=dbl), (f, x3), dbl)
+            if kind == "fail_lowering_base":
+                f = lambda x: jnp.sin(linear(x))
+                pl = ps.PLUGIN_REGISTRY.get("jax.numpy.sin")
+
+                def boom_base(self, *a, **k):
+                    raise bk("c13: BaseException injected in lowering")
+
+                def thunk():
+                    with mock.patch.object(type(pl), "lower", boom_base):
+                        return to_onnx(f, [(2, 4)], enable_double_precision=dbl)
+                return (f"fail_lowering_base:{bk.__name__}", False, thunk, (f, x4), dbl)
+            if kind == "fail_body_base":
+                f = lambda x: G["user_body_fails_base"](x) * 2.0
+
+                def thunk():
+                    BASE_KIND[0] = bk
+                    return to_onnx(f, [(3,)], enable_double_precision=dbl)
+                return (f"fail_body_base:{bk.__name__}", False, thunk, (f, x3), dbl)
+            # a leaf plugin whose activation raises while the ExitStack is half entered
+            f = lambda x: jnp.sin(x) + 1.0
+            import types as _types
+            from jax2onnx.plugins._patching import MonkeyPatchSpec as _MPS
+            names = [n for n, p_ in ps.PLUGIN_REGISTRY.items() if isinstance(p_, ps.PrimitiveLeafPlugin)]
+            pl = ps.PLUGIN_REGISTRY[names[rng.randrange(len(names) // 3, len(names))]]
+            dummy = _types.ModuleType("c13_dummy_target")
+            dummy.x = 1
+            orig_specs = type(pl).binding_specs()
+
+            def _mk(orig):
+                raise bk("c13: BaseException in make_value while entering the plugin stack")
+
+            def thunk():
+                with mock.patch.object(type(pl), "binding_specs", classmethod(lambda c: list(orig_specs) + [_MPS(dummy, "x", _mk)])):
+                    return to_onnx(f, [(3,)], enable_double_precision=dbl)
+            return (f"fail_enter_base:{bk.__name__}", False, thunk, (f, x3), dbl)
         if kind == "ok_onnx_function":
-            f = lambda x: user_scale(block(x))
+            f = lambda x: G["user_scale"](block(x))
             return ("ok_onnx_function", True, lambda: to_onnx(f, [(2, 4)], enable_double_precision=dbl), (f, x4), dbl)
         if kind == "ok_nested_function":
-            f = lambda x: user_outer(x) + 1.0
+            f = lambda x: G["user_outer"](x) + 1.0
             return ("ok_nested_function", True, lambda: to_onnx(f, [(3,)], enable_double_precision=dbl), (f, x3), dbl)
         if kind == "ok_file":
             f = lambda x: jnp.sin(x) * 2.0
@@ -496,10 +726,10 @@ def worker_history(seed, tier, out_path):
                     return to_onnx(f, [(2, 4)], enable_double_precision=dbl)
             return ("fail_lowering", False, thunk, (f, x4), dbl)
         if kind == "fail_function_body_trace":
-            f = lambda x: user_body_fails(x) * 2.0
+            f = lambda x: G["user_body_fails"](x) * 2.0
             return ("fail_function_body_trace", False, lambda: to_onnx(f, [(3,)], enable_double_precision=dbl), (f, x3), dbl)
         if kind == "fail_function_body_lowering":
-            f = lambda x: user_body_unsupported(x) * 2.0
+            f = lambda x: G["user_body_unsupported"](x) * 2.0
             return ("fail_function_body_lowering", False, lambda: to_onnx(f, [(3,)], enable_double_precision=dbl), (f, x3), dbl)
         if kind == "fail_serialization":
             f = lambda x: jnp.cos(x)
@@ -586,11 +816,20 @@ def worker_history(seed, tier, out_path):
         stats["kinds"][kind] = stats["kinds"].get(kind, 0) + 1
         before = _call(*eager) if eager else None
         raised = None
+        g0 = object_graph(eager[0]) if eager else None
         snap.base = snap.take()          # the property is per call: compare with the state right before it
         try:
             thunk()
-        except Exception as e:  # noqa: BLE001
+        except BaseException as e:  # noqa: BLE001  (KeyboardInterrupt / SystemExit are injected on purpose)
             raised = f"{type(e).__name__}: {str(e)[:120]}"
+        if g0 is not None:
+            stats["object_graphs"] = stats.get("object_graphs", 0) + 1
+            stats["objects_compared"] = stats.get("objects_compared", 0) + len(g0[0])
+            gd = object_graph_diff(g0[0], object_graph(eager[0])[0])
+            if gd:
+                finding(f"user-object-mutated:{label.split(':')[0]}",
+                        f"to_onnx ({label}) changed objects of the USER reachable from the converted callable: {gd[:4]}",
+                        {"kind": "history", "seed": seed, "step": idx, "label": label, "changes": gd[:10]})
         if expect_ok is not None:
             stats["conversions"] += 1
             stats["ok" if raised is None else "raised"] += 1
@@ -613,12 +852,15 @@ def worker_history(seed, tier, out_path):
     res["obs1"] = first_conv_obs[0]
     check_probes("first conversion", idx)
 
-    must = ["ok_linear", "ok_linen", "ok_eqx", "ok_onnx_function", "ok_nested_function", "ok_file", "fail_trace",
+    must = ["ok_unique_nnx", "ok_unique_eqx", "ok_unique_nnx", "fail_trace_base", "fail_lowering_base", "fail_body_base",
+            "fail_enter_base", "fail_trace_base", "fail_enter_base",
+            "ok_linear", "ok_linen", "ok_eqx", "ok_onnx_function", "ok_nested_function", "ok_file", "fail_trace",
             "fail_unsupported", "fail_lowering", "fail_function_body_trace", "fail_function_body_lowering",
             "fail_serialization", "fail_output_names", "user_toggles_x64", "ok_jnp", "fail_trace", "user_toggles_x64",
             "ok_linear", "fail_lowering"]
     extra_n = 14 if tier == "quick" else 400
-    allk = ["ok_jnp", "ok_linear", "ok_linen", "ok_eqx", "ok_onnx_function", "ok_nested_function", "ok_file", "fail_trace",
+    allk = ["ok_unique_nnx", "ok_unique_eqx", "fail_trace_base", "fail_lowering_base", "fail_body_base", "fail_enter_base",
+            "ok_jnp", "ok_linear", "ok_linen", "ok_eqx", "ok_onnx_function", "ok_nested_function", "ok_file", "fail_trace",
             "fail_unsupported", "fail_lowering", "fail_function_body_trace", "fail_function_body_lowering",
             "fail_serialization", "fail_output_names", "user_toggles_x64"]
     plan = must + [rng.choice(allk) for _ in range(extra_n)]
@@ -1128,6 +1370,8 @@ def gen_amp_case(rng, ci):
     ks_model = []
     stubs = {}
     gidx = 0
+    kinds_used = []
+    body_kind = _pick_kind(rng)
     for si in range(rng.randint(1, 4)):
         gidx += 1
         ai = rng.randrange(len(ATTRS))
@@ -1137,8 +1381,11 @@ def gen_amp_case(rng, ci):
         raising = rng.random() < 0.08
         base = 10000 * gidx
         if raising:
-            def fn(orig):
-                raise RuntimeError("c13: patch_function raises")
+            pk = _pick_kind(rng)
+            kinds_used.append(pk)
+
+            def fn(orig, _k=pk):
+                raise _k("c13: patch_function raises")
         else:
             fn = (lambda b: (lambda orig: Val(b + orig.id + 1)))(base)
 
@@ -1161,7 +1408,8 @@ def gen_amp_case(rng, ci):
         if d == 0:
             reached[0] = True
             if body_raises:
-                raise _BodyError()
+                kinds_used.append(body_kind)
+                raise body_kind()
             return
         with ps.apply_monkey_patches():
             rec(d - 1)
@@ -1169,7 +1417,7 @@ def gen_amp_case(rng, ci):
         try:
             rec(depth)
             oc = "Returned"
-        except Exception:  # noqa: BLE001
+        except BaseException:  # noqa: BLE001
             oc = "Raised"
     after = _observe(targets)
     psafter = []
@@ -1185,7 +1433,8 @@ def gen_amp_case(rng, ci):
            + ("false" if body_raises else "true") + ", " + _obs_lit(after) + ", "
            + _lst(f"({t},{a},{'None' if e is None else f'(Some ({e[0]}%N,{e[1]}%Z,{_b(e[2])}))'})" for (t, a, e) in psafter) + ", " + oc + ")")
     missing_key = any(getattr(targets[t], ATTRS[a], MISSING) is MISSING for (t, a, _p) in ks_model)
-    info = {"depth": depth, "keys": len(ks_model), "body_raises": body_raises, "enter_fault": not reached[0],
+    info = {"exit_kinds": sorted({_kind_name(k) for k in kinds_used}) if oc == "Raised" else [],
+            "depth": depth, "keys": len(ks_model), "body_raises": body_raises, "enter_fault": not reached[0],
             "perfect": after == before and leaked_state == 0, "outcome": oc,
             "lookup_restored": [x[3] for x in after] == [x[3] for x in before],
             "model": {"mro": mro, "own": own, "keys": ks_model, "depth": depth, "body_raises": body_raises},
@@ -1236,19 +1485,20 @@ def gen_amp_history_case(rng, ci):
                     w = (ti, ai, v.id)
             depth = rng.randint(1, 2)
             body_raises = rng.random() < 0.25
+            body_kind = _pick_kind(rng)
             pre = _observe(targets)
 
             def rec(d):
                 if d == 0:
                     if body_raises:
-                        raise _BodyError()
+                        raise body_kind()
                     return
                 with ps.apply_monkey_patches():
                     rec(d - 1)
             try:
                 rec(depth)
                 oc = "Returned"
-            except Exception:  # noqa: BLE001
+            except BaseException:  # noqa: BLE001
                 oc = "Raised"
             after = _observe(targets)
             psafter = []
@@ -1317,6 +1567,126 @@ def cross_call_state_scan():
     return sorted(set(found))
 
 
+def exit_path_scan():
+    """AST: the restoring code of every scoped change is reached on EVERY exit path — it sits in the
+    `finally:` of the try that contains the `yield` (context managers) / the call (ContextVar), or the
+    scope is an ExitStack `with`.  Fail closed: anything else is reported."""
+    import ast
+    import inspect
+    import textwrap
+    from jax2onnx.plugins import plugin_system as ps
+    from jax2onnx.plugins import _patching as pt
+    from jax2onnx.converter import conversion_api as ca
+    from jax2onnx import user_interface as ui
+    problems = []
+
+    def restoring(nodes, words):
+        src = " ".join(ast.unparse(n) for n in nodes)
+        return all(any(w in src for w in alt) for alt in words)
+
+    def check_cm(fn, words, name):
+        f = getattr(fn, "__wrapped__", fn)
+        tree = ast.parse(textwrap.dedent(inspect.getsource(f)))
+        ok = False
+        for n in ast.walk(tree):
+            if isinstance(n, ast.Try) and any(isinstance(x, (ast.Yield, ast.YieldFrom)) for b in n.body for x in ast.walk(b)):
+                if n.finalbody and restoring(n.finalbody, words):
+                    ok = True
+                else:
+                    problems.append(f"{name}: the try around `yield` restores in "
+                                    f"{'except/else' if n.handlers or n.orelse else 'nothing'} instead of finally")
+                    return
+            if isinstance(n, ast.With) and any("ExitStack" in ast.unparse(i.context_expr) for i in n.items) and \
+                    any(isinstance(x, (ast.Yield, ast.YieldFrom)) for b in n.body for x in ast.walk(b)):
+                ok = True
+        if not ok:
+            problems.append(f"{name}: no try/finally (or ExitStack) around `yield`")
+    check_cm(pt.apply_patches, [("setattr(",), ("delattr(",), ("reversed(",)], "_patching.apply_patches")
+    check_cm(ps.apply_monkey_patches, [("setattr(",), ("reversed(",), ("_PATCH_STATE",)], "plugin_system.apply_monkey_patches")
+    check_cm(ca._activate_plugin_worlds, [], "conversion_api._activate_plugin_worlds")
+    check_cm(ps._activate_full_plugin_worlds_for_body, [], "plugin_system._activate_full_plugin_worlds_for_body")
+    check_cm(ca._force_jax_x64, [("jax_enable_x64",)], "conversion_api._force_jax_x64")
+    check_cm(ui._temporary_x64, [("jax_enable_x64",)], "user_interface._temporary_x64")
+    # plugin_binding: `with apply_patches(...): yield`
+    src = textwrap.dedent(inspect.getsource(ps.PrimitiveLeafPlugin.plugin_binding.__func__.__wrapped__
+                                            if hasattr(ps.PrimitiveLeafPlugin.plugin_binding.__func__, "__wrapped__")
+                                            else ps.PrimitiveLeafPlugin.plugin_binding.__func__))
+    if "with apply_patches(" not in src:
+        problems.append("PrimitiveLeafPlugin.plugin_binding: not a `with apply_patches(...)` scope")
+    # every _IN_FUNCTION_BUILD.set(...) that widens the set has its reset in a finally
+    tree = ast.parse(inspect.getsource(ps))
+    for n in ast.walk(tree):
+        if isinstance(n, ast.Try) and "_IN_FUNCTION_BUILD.set(" in " ".join(ast.unparse(x) for x in n.handlers + n.orelse) \
+                and "_IN_FUNCTION_BUILD.set(" not in " ".join(ast.unparse(x) for x in n.finalbody):
+            problems.append("plugin_system: _IN_FUNCTION_BUILD reset outside finally")
+    sets = [n for n in ast.walk(tree) if isinstance(n, ast.Call) and ast.unparse(n.func) == "_IN_FUNCTION_BUILD.set"]
+    in_finally = [c for n in ast.walk(tree) if isinstance(n, ast.Try) for b in n.finalbody for c in ast.walk(b)
+                  if isinstance(c, ast.Call) and ast.unparse(c.func) == "_IN_FUNCTION_BUILD.set"]
+    if len(sets) != 2 * len(in_finally):
+        problems.append(f"plugin_system: {len(sets)} _IN_FUNCTION_BUILD.set calls, {len(in_finally)} of them in a finally")
+    return problems
+
+
+# (function, receiver expression) pairs that may be written with setattr / delattr / __dict__ during a
+# conversion: the converter's own context objects, and the patch targets inside the two patch managers.
+# `actual_target` is written at DECORATION time (@onnx_function marks), not during conversion.
+WRITE_ALLOW = {
+    ("FunctionPlugin._allocate_friendly_name", "ctx"), ("FunctionPlugin._lower_and_call", "fscope.ctx"),
+    ("_mark_onnx_function_target", "actual_target"),
+    ("apply_monkey_patches", "tgt"), ("apply_patches", "tgt"), ("_restore", "tgt"),
+    ("FunctionScope.to_ir_function", "fn"),
+    ("_append_primitive_call_record", "owner"), ("primitive_recording_scope", "owner"), ("current_eqn_scope", "ctx"),
+}
+
+
+def user_object_write_scan():
+    """AST, fail closed: every setattr / delattr / object.__setattr__ / __dict__ write in
+    plugins/plugin_system.py, plugins/_patching.py, user_interface.py and converter/*.py whose receiver
+    is not one of the converter's own objects (WRITE_ALLOW).  A write to an object of the user (the
+    model instance being converted) is a mutation of the host's state."""
+    import ast
+    import glob
+    import jax2onnx
+    root = os.path.dirname(jax2onnx.__file__)
+    files = [os.path.join(root, "plugins", "plugin_system.py"), os.path.join(root, "plugins", "_patching.py"),
+             os.path.join(root, "user_interface.py")] + sorted(glob.glob(os.path.join(root, "converter", "*.py")))
+    sites = []
+
+    def visit(node, fn, rel):
+        if isinstance(node, (ast.FunctionDef, ast.AsyncFunctionDef, ast.ClassDef)):
+            fn = fn + [node.name]
+        site = None
+        if isinstance(node, ast.Call):
+            fu = node.func
+            if isinstance(fu, ast.Name) and fu.id in ("setattr", "delattr") and node.args:
+                site = ast.unparse(node.args[0])
+            elif isinstance(fu, ast.Attribute) and fu.attr in ("__setattr__", "__delattr__", "__setitem__") and node.args \
+                    and ast.unparse(fu.value) in ("object", "type", "super()"):
+                site = ast.unparse(node.args[0])
+            elif isinstance(fu, ast.Attribute) and fu.attr in ("update", "setdefault", "pop", "clear", "__setitem__") and \
+                    isinstance(fu.value, ast.Attribute) and fu.value.attr == "__dict__":
+                site = ast.unparse(fu.value.value)
+            elif isinstance(fu, ast.Attribute) and fu.attr in ("update", "setdefault", "pop", "clear", "__setitem__") and \
+                    isinstance(fu.value, ast.Call) and ast.unparse(fu.value.func) == "vars":
+                site = ast.unparse(fu.value.args[0]) if fu.value.args else "?"
+        if isinstance(node, (ast.Assign, ast.AugAssign, ast.Delete)):
+            tg = node.targets if isinstance(node, (ast.Assign, ast.Delete)) else [node.target]
+            for t in tg:
+                if isinstance(t, ast.Subscript) and isinstance(t.value, ast.Attribute) and t.value.attr == "__dict__":
+                    site = ast.unparse(t.value.value)
+                if isinstance(t, ast.Subscript) and isinstance(t.value, ast.Call) and ast.unparse(t.value.func) == "vars":
+                    site = ast.unparse(t.value.args[0]) if t.value.args else "?"
+        if site is not None:
+            q = ".".join(fn)
+            if (q, site) not in WRITE_ALLOW and (q.split(".")[-1], site) not in WRITE_ALLOW:
+                sites.append(f"{rel}:{q}: attribute write on `{site}`")
+        for c in ast.iter_child_nodes(node):
+            visit(c, fn, rel)
+    for f in files:
+        visit(ast.parse(open(f).read()), [], os.path.relpath(f, root))
+    return sorted(set(sites))
+
+
 def probe_code_shape():
     """which shape of the patch code is running (Patch.v: fixed = true since /repo b0781c1).
     -> (apply_patches restores an unowned attribute by delattr?, apply_monkey_patches likewise?,
@@ -1371,7 +1741,7 @@ def x64_cases():
         for prev in (False, True):
             for en in (False, True):
                 for sets in (None, False, True):
-                    for raises in (False, True):
+                    for raises in (False, _BodyError, KeyboardInterrupt, SystemExit, _BaseErr):
                         jax.config.update("jax_enable_x64", prev)
                         seen = [None]
 
@@ -1380,7 +1750,7 @@ def x64_cases():
                             if sets is not None:
                                 jax.config.update("jax_enable_x64", sets)
                             if raises:
-                                raise _BodyError()
+                                raise raises()
                         try:
                             if which == "TF":
                                 with _temporary_x64(en):
@@ -1390,9 +1760,9 @@ def x64_cases():
                                 with cm(en):
                                     body()
                             oc = "Returned"
-                        except _BodyError:
+                        except BaseException:  # noqa: BLE001
                             oc = "Raised"
-                        out.append((which, prev, en, sets, raises, seen[0], bool(jax.config.jax_enable_x64), oc))
+                        out.append((which, prev, en, sets, bool(raises), seen[0], bool(jax.config.jax_enable_x64), oc))
     jax.config.update("jax_enable_x64", saved)
     return out
 
@@ -1465,6 +1835,11 @@ def run(ctx):
         "no asynchronous exception (KeyboardInterrupt, MemoryError) between setattr and applied.append "
         "(C13_async_fault_after_setattr_leaks shows the leak if one strikes there)",
         "setattr that succeeded when applying succeeds when restoring (the finally loop has no handler around setattr)",
+        "exceptions arriving INSIDE a restoring loop (finally) are not injected: the code has no handler there (a failing restoring "
+        "setattr or a KeyboardInterrupt during unwinding skips the remaining restorations)",
+        "user objects: the object graph reachable from the converted callable (closure cells, __self__, named globals, instance "
+        "attributes, containers; depth 5, 400 objects) is compared before/after each call; the AST tie "
+        "conversion-writes-no-attribute-of-a-user-object closes the rest relative to the receiver allow-list WRITE_ALLOW",
         "the property is checked per call: every snapshot comparison is against the state immediately before that to_onnx call "
         "(the host may rebind attributes between calls); a cumulative comparison with the initial state closes the run",
         "snapshot scope: modules loaded in the worker whose top-level package is one of " + ", ".join(SCOPE) +
@@ -1500,6 +1875,12 @@ def run(ctx):
     n_h = 120 if quick else 1500
     hc = [gen_amp_history_case(rng, i) for i in range(n_h)]
     scan = cross_call_state_scan()
+    paths = exit_path_scan()
+    ctx.oblige("tie:restoration-reached-on-every-exit-path(AST: restore loop in finally / ExitStack; handler shape HFinally)",
+               not paths, "tie", "" if not paths else str(paths))
+    writes = user_object_write_scan()
+    ctx.oblige("tie:conversion-writes-no-attribute-of-a-user-object(AST, fail closed: receivers outside the converter's own objects)",
+               not writes, "tie", "" if not writes else str(writes))
     ctx.oblige("tie:apply_monkey_patches-keeps-no-cross-call-state(AST: no module-level container written besides _PATCH_STATE)",
                not scan, "tie", "" if not scan else f"state that survives a call: {scan}")
     bad_h, worse_h, coq_fail_h = [], [], ""
@@ -1593,6 +1974,11 @@ def run(ctx):
     fh = {}
     for _l, info in pc:
         fh[info["fault"]] = fh.get(info["fault"], 0) + 1
+    kh = {}
+    for _l, info in list(pc) + list(ac):
+        for k in info.get("exit_kinds", []):
+            kh[k] = kh.get(k, 0) + 1
+    ctx.coverage["exit_kind_histogram(synthetic cases that raised)"] = kh
     distinct_p = len({json.dumps(info["model"], sort_keys=True) for _l, info in pc})
     nontrivial_p = sum(1 for _l, info in pc if info["specs"] > 0 and (info["fault"] != "none" or info["dups"] or not info["perfect"]))
     ctx.coverage.update({
@@ -1778,6 +2164,9 @@ def run(ctx):
                          "benign_own_dict_only_changes(getattr equal)": [x["attr"] for x in hist.get("own_only_diffs", [])],
                          "non_callable_data_rebound_by_libraries(not patch keys)": [x["attr"] for x in hist.get("data_rebinds", [])][:20],
                          "attributes_added(not module-valued)": [a["attr"] for a in hist.get("added", []) if not a["module_valued"]][:20],
+                         "user_object_graphs_compared(before/after each conversion)": st.get("object_graphs", 0),
+                         "user_objects_compared": st.get("objects_compared", 0),
+                         "non_Exception_BaseException_exits": {k: v for k, v in st["kinds"].items() if k.endswith("_base")},
                          "worker_seconds": hist["wall"]},
         "host_rebinding_histories": {
             "histories[convert; host rebinds/deletes a patched attribute; convert; convert]": len({(x["attr"], x["kind"]) for x in hist.get("rebind_log", [])}),
